@@ -1,4 +1,5 @@
 import CJ.Lemmas.Derive
+import CJ.Lemmas.ClientSession
 /-!
 # C01 — client and station derive the same phantom address, port and transport secrets
 
@@ -222,6 +223,145 @@ theorem dtls_port_fixed_gen (s : Stream) (lim : Nat) (ver : Nat) (sr : Bool) :
   · rw [h.2.2.2.2.1, hd]; simp
   · rw [h.2.2.2.2.2.1, hd]; simp
 
+/-! ### client-side histories: configuration for future sessions vs. the parameters of the session
+
+`CJ.ClientSession.step` mirrors the methods of the four `ClientTransport`s (`SetParams`, `Prepare`,
+`SetSessionParams`, `GetParams`, `GetDstPort`, `PrepareKeys`+`WrapConn`) and the client's treatment of a
+registration response (`unpack`: gotapdance `UnpackRegResp`); a state holds the configuration (`par`,
+`cfgPfx`) and the session (`sess`, `pfx`) apart.  The harness runs whole histories through the real
+objects and through `run` (`chist|…`). -/
+
+open CJ.ClientSession in
+/-- **The connect-time port is a function of the session alone**: `GetDstPort` answers the same in any two
+states of a client transport that agree on the session parameters (and, prefix transport, on the session's
+prefix object) — whatever the configuration for future sessions says in either. -/
+theorem client_port_from_session_params (k : Consts) (s : Stream) (lim : Nat) (t : Transport) (st st' : St)
+    (hs : st.sess = st'.sess) (hp : st.pfx = st'.pfx) :
+    (step k s lim t st .getDstPort).2 = (step k s lim t st' .getDstPort).2 :=
+  getDstPort_reads_session k s lim t st st' hs hp
+
+open CJ.ClientSession in
+/-- **Re-configuring does not touch the session**: `SetParams` with any argument leaves the session
+parameters and the session's prefix object as they are (prefix transport: once a session exists). -/
+theorem reconfiguration_keeps_session (k : Consts) (s : Stream) (lim : Nat) (t : Transport) (st : St) (a : Arg)
+    (h : t = .prefix → st.sess ≠ none ∧ st.pfx ≠ none) :
+    (step k s lim t st (.setParams a)).1.sess = st.sess ∧ (step k s lim t st (.setParams a)).1.pfx = st.pfx :=
+  setParams_keeps_session k s lim t st a h
+
+open CJ.ClientSession in
+/-- **Any earlier history, then configure and `Prepare`**: the session that starts registers the configured
+parameters (`GetParams`), they are well typed, and the session is coherent (`Registered`: the prefix object
+is the client's table entry of the registered prefix id) — whatever state earlier sessions, overrides or
+re-configurations left the object in. -/
+theorem session_registers_configuration (k : Consts) (s : Stream) (lim : Nat) (t : Transport) (st0 : St) (a : Arg)
+    (ha : OwnArg t a) (hok : (step k s lim t st0 (.setParams a)).2 = .ok) :
+    ∃ w, (step k s lim t (step k s lim t (step k s lim t st0 (.setParams a)).1 .prepare).1 .getParams).2 = .params (some w) ∧
+      Registered t (step k s lim t (step k s lim t (step k s lim t st0 (.setParams a)).1 .prepare).1 .getParams).1 w ∧
+      WellTyped k t (some w) :=
+  configure_prepare_registers k s lim t st0 a ha hok
+
+open CJ.ClientSession in
+/-- **The history theorem for the port.**  A session registered the parameters `w`; the dialer then
+re-configures the object for later sessions any number of times (`SetParams` with any arguments); the port
+it dials at connect time (`GetDstPort` under the dialer's rule) is the port the station derives from the
+registration that carries `w`. -/
+theorem registered_port_agrees (k : Consts) (s : Stream) (lim : Nat) (t : Transport) (ver : Nat) (sr : Bool)
+    (st : St) (w : Wire) (as : List Arg) (q : Nat)
+    (hreg : Registered t st w) (hty : WellTyped k t (some w))
+    (htab : ∀ id, lookupPrefix k.stationPrefixes id = lookupPrefix k.clientPrefixes id)
+    (hpre : t = .prefix → k.randomizeMinVersion ≤ ver) (hd : k.dtlsDefault = 443)
+    (h : dialerPort k ver sr (step k s lim t (reconfigure k s lim t st as) .getDstPort).2 = .ok q) :
+    stationPort k s lim t ver (some w) sr = .ok q := by
+  rw [registered_getDstPort k s lim t _ w (registered_reconfigure k s lim t w as st hreg) hty,
+    dialerPort_eq_clientPort] at h
+  exact port_agree k s lim t ver (some w) sr q htab hpre hd hty h
+
+/-! ### registrar responses: both sides of the override guard -/
+
+open CJ.ClientSession in
+/-- **Overrides are applied iff allowed, on both sides.**  The client registered `w`.  The registrar's
+response (which the client is handed and which travels to the station inside the wrapper) carries
+transport parameters or not; the client disabled registrar overrides or not.  In all four combinations
+the parameters the client's session runs with after `UnpackRegResp` are the parameters the station builds
+the registration from (`NewRegistrationC2SWrapper`), and both are the response's parameters exactly when
+they are present and overrides are not disabled — else the registered ones. -/
+theorem overrides_applied_iff_allowed_both_sides (k : Consts) (s : Stream) (lim : Nat) (t : Transport) (st : St)
+    (w : Wire) (disable : Bool) (rr : Resp) (ht : t ≠ .unknown) (hreg : st.sess = some w) (hpar : st.par ≠ none)
+    (hty : ∀ w', rr.tp = some w' → OwnWire t w') :
+    (step k s lim t st (.unpack disable rr.tp)).1.sess = ingestParams disable (some rr) (some w) ∧
+    ingestParams disable (some rr) (some w) = (if rr.tp.isSome = true ∧ disable = false then rr.tp else some w) :=
+  ⟨unpack_eq_ingest k s lim t st w disable rr ht hreg hpar hty, ingestParams_eq disable rr (some w)⟩
+
+open CJ.ClientSession in
+/-- after the response the ports still agree (min, obfs4, dtls: the transports whose port is a function
+of the parameters alone): the port the client's transport derives from its session equals the port the
+station derives from the parameters it applied.  (A response that carries `dst_port` settles the port on
+both sides, `ingest_with_response`; for a prefix pushed by the registrar that is the only channel — the
+prefix object built from a response has no port, see `response_prefix_agrees`.) -/
+theorem response_port_agrees (k : Consts) (s : Stream) (lim : Nat) (t : Transport) (ver : Nat) (sr : Bool) (st : St)
+    (w : Wire) (disable : Bool) (rr : Resp) (q : Nat)
+    (ht : t = .min ∨ t = .obfs4 ∨ t = .dtls) (hreg : st.sess = some w) (hpar : st.par ≠ none)
+    (hw : OwnWire t w) (hty : ∀ w', rr.tp = some w' → OwnWire t w')
+    (htab : ∀ id, lookupPrefix k.stationPrefixes id = lookupPrefix k.clientPrefixes id) (hd : k.dtlsDefault = 443)
+    (h : dialerPort k ver sr (step k s lim t (step k s lim t st (.unpack disable rr.tp)).1 .getDstPort).2 = .ok q) :
+    stationPort k s lim t ver (ingestParams disable (some rr) (some w)) sr = .ok q := by
+  have htu : t ≠ .unknown := by rcases ht with h | h | h <;> simp [h]
+  have htp : t ≠ .prefix := by rcases ht with h | h | h <;> simp [h]
+  have he := unpack_eq_ingest k s lim t st w disable rr htu hreg hpar hty
+  have hsome : ∃ e, ingestParams disable (some rr) (some w) = some e ∧ OwnWire t e := by
+    rw [ingestParams_eq]
+    by_cases hc : rr.tp.isSome = true ∧ disable = false
+    · rw [if_pos hc]
+      obtain ⟨e, he'⟩ := Option.isSome_iff_exists.mp hc.1
+      exact ⟨e, he', hty e he'⟩
+    · rw [if_neg hc]; exact ⟨w, rfl, hw⟩
+  obtain ⟨e, hee, hoe⟩ := hsome
+  have hwt : WellTyped k t (some e) := by
+    rcases ht with h | h | h <;> subst h <;> cases e <;> simp_all [OwnWire, WellTyped]
+  have hr : Registered t (step k s lim t st (.unpack disable rr.tp)).1 e :=
+    ⟨by rw [he, hee], fun hp => absurd hp htp⟩
+  rw [registered_getDstPort k s lim t _ e hr hwt, dialerPort_eq_clientPort] at h
+  rw [hee]
+  exact port_agree k s lim t ver (some e) sr q htab (fun hp => absurd hp htp) hd hwt h
+
+open CJ.ClientSession in
+/-- prefix transport: the prefix whose bytes open the client's first flight after the response is the
+prefix the station registered — the overriding one iff the override is applied on both sides -/
+theorem response_prefix_agrees (k : Consts) (s : Stream) (lim : Nat) (st : St) (id : Int) (r : Bool)
+    (disable : Bool) (rr : Resp) (hreg : Registered .prefix st (.prefix id r)) (hpar : st.par ≠ none)
+    (hty : ∀ w', rr.tp = some w' → OwnWire .prefix w') :
+    ∃ id' r', ingestParams disable (some rr) (some (.prefix id r)) = some (.prefix id' r') ∧
+      (step k s lim .prefix (step k s lim .prefix st (.unpack disable rr.tp)).1 .wrap).2 = .sent id' := by
+  obtain ⟨id0, r0, hw, hp⟩ := hreg.2 rfl
+  cases hw
+  have hpn : st.par.isNone = false := by cases h : st.par <;> simp_all
+  cases htp : rr.tp with
+  | none => exact ⟨id, r, by simp [ingestParams, htp], by simp [step, prefixStep, hp, PObj.id]⟩
+  | some w' =>
+    have ho := hty w' htp
+    cases w' <;> simp only [OwnWire] at ho
+    rename_i id' r'
+    cases disable
+    · exact ⟨id', r', by simp [ingestParams, htp], by simp [step, prefixStep, prefixSetSession, hpn, PObj.id]⟩
+    · exact ⟨id, r, by simp [ingestParams, htp], by simp [step, prefixStep, hp, PObj.id]⟩
+
+open CJ.ClientSession in
+/-- a wrapper without a response is the plain derivation: every theorem above about `stationDerive`
+speaks about the ingest path -/
+theorem ingest_without_response (c : Crypto) (k : Consts) (cfg : Cfg) (r : Reg) (disable : Bool) (R : Rng) (g : R.G) :
+    ((stationIngest c k cfg r disable none).run R g).1 = ((stationDerive c k cfg r).run R g).1 :=
+  stationIngest_none c k cfg r disable R g
+
+open CJ.ClientSession in
+/-- with a response: the derivation from the parameters `ingestParams` selects, then the response's
+phantom address and port where it carries them (what the bidirectional client dials) -/
+theorem ingest_with_response (c : Crypto) (k : Consts) (cfg : Cfg) (r : Reg) (disable : Bool) (rr : Resp) (R : Rng) (g : R.G) :
+    ((stationIngest c k cfg r disable (some rr)).run R g).1 =
+      match ((stationDerive c k cfg { r with params := ingestParams disable (some rr) r.params }).run R g).1 with
+      | .ok rv => .ok { rv with addr := rr.addr.getD rv.addr, port := (rr.port.map (· % 65536)).getD rv.port }
+      | d => d :=
+  stationIngest_some c k cfg r disable rr R g
+
 /-! ### determinism, totality, containment -/
 
 /-- the derivation is a function of its inputs alone: no dependence on the generator's state -/
@@ -289,5 +429,41 @@ example : ∀ grp ∈ gc0.groups, ∀ x, some x ∈ grp.nets → x.Fits := by
   simp only [List.mem_cons, Option.some.injEq, List.not_mem_nil, or_false] at hx
   rcases hx with rfl | rfl <;> (unfold RawNet.Fits; decide)
 example : toyRng.Conforms intnContract := fun g _ hn => Nat.mod_lt g hn
+
+/-! ### non-vacuity of the history theorems: histories on the model with the code's constants -/
+
+section
+open CJ.ClientSession
+
+def toyStream : Stream := fun i => UInt8.ofNat (i * 7 + 3)
+
+/-- re-configured for the next dial while the session is active: the registered parameters randomise, the
+port stays the seeded one (and is the station's for that registration) -/
+example : (run genConsts toyStream 8160 .min {}
+    [.setParams (.generic true), .prepare, .getParams, .setParams (.generic false), .getDstPort]).2 =
+    [.ok, .ok, .params (some (.generic true)), .ok, .port (.ok 1802)] := by decide
+example : stationPort genConsts toyStream 8160 .min 4 (some (.generic true)) true = .ok 1802 := by decide
+
+/-- the registrar overrides the parameters: applied when allowed, refused when the session disabled
+overrides (and then the session keeps what it registered) -/
+example : (run genConsts toyStream 8160 .min {}
+    [.setParams (.generic false), .prepare, .getParams, .unpack false (some (.generic true)), .getDstPort, .getParams]).2 =
+    [.ok, .ok, .params (some (.generic false)), .ok, .port (.ok 1802), .params (some (.generic true))] := by decide
+example : (run genConsts toyStream 8160 .min {}
+    [.setParams (.generic false), .prepare, .getParams, .unpack true (some (.generic true)), .getDstPort, .getParams]).2 =
+    [.ok, .ok, .params (some (.generic false)), .refused, .port (.ok 443), .params (some (.generic false))] := by decide
+
+/-- prefix transport: an override installs the registrar's prefix for that session only; the next
+`Prepare` starts from the configured prefix again -/
+example : (run genConsts toyStream 8160 .prefix {}
+    [.setParams (.prefix 0 false), .prepare, .getParams, .unpack false (some (.prefix 9 false)), .getDstPort, .wrap,
+     .prepare, .getParams, .getDstPort, .wrap]).2 =
+    [.ok, .ok, .params (some (.prefix 0 false)), .ok, .port (.ok 0), .sent 9,
+     .ok, .params (some (.prefix 0 false)), .port (.ok 443), .sent 0] := by decide
+
+example : OwnArg .prefix (.prefix 9 true) := trivial
+example : Registered .min ⟨some (.generic false), some (.generic true), none, none, false⟩ (.generic true) :=
+  ⟨rfl, fun h => by cases h⟩
+end
 
 end CJ.Props.C01
